@@ -47,6 +47,8 @@ func c04sess() *hs.Sess {
 			return &hs.Prog{Stmts: []*hs.Stmt{{ID: "copyb", Cols: cols, ParseParams: true, Ops: []hs.Op{{K: "copy", Copy: &hs.CopyPlan{Format: wire.BinaryFormat, MaxReads: -1, OnErr: "propagate", Binary: true}}}}}}
 		case strings.HasPrefix(q, "copyt"):
 			return &hs.Prog{Stmts: []*hs.Stmt{{ID: "copyt", Cols: cols, ParseParams: true, Ops: []hs.Op{{K: "copy", Copy: &hs.CopyPlan{Format: wire.TextFormat, MaxReads: -1, OnErr: "propagate"}}}}}}
+		case strings.HasPrefix(q, "boom"):
+			return &hs.Prog{Stmts: []*hs.Stmt{{ID: "boom", Cols: cols, ParseParams: true, Ops: []hs.Op{{K: "panicp"}, {K: "complete", Tag: "OK"}}}}}
 		case strings.HasPrefix(q, "fail"):
 			return &hs.Prog{Err: &hs.ErrSpec{Base: "scripted parse failure", Wraps: []hs.Wrap{{K: 'c', S: "42601"}}}}
 		case strings.HasPrefix(q, "two"):
@@ -102,6 +104,8 @@ func c04canonical(rng *core.Rng, n int) []c04session {
 		{Name: "error-batch", Msgs: cat([][]byte{start, pg.Parse("", "fail here", nil), pg.Bind("", "", nil, nil, nil), pg.Execute("", 0), pg.Sync(), pg.Bind("", "nosuch", nil, nil, nil), pg.Sync(), pg.Query("fail again"), pg.Terminate()})},
 		{Name: "copy-binary", Msgs: cat([][]byte{start, pg.Query("copyb in"), pg.CopyData(bin[:25]), pg.CopyData(bin[25:]), pg.CopyDone(), pg.Query("select 1"), pg.Terminate()})},
 		{Name: "copy-binary-data-after-trailer", Msgs: cat([][]byte{start, pg.Query("copyb in"), pg.CopyData(bin), pg.CopyData([]byte("late data after the trailer")), pg.CopyData(nil), pg.CopyDone(), pg.Query("select 1"), pg.Terminate()})},
+		{Name: "execute-panic-then-more", Msgs: cat([][]byte{start, pg.Parse("b", "boom $1", nil), pg.Bind("pb", "b", nil, [][]byte{[]byte("1")}, nil), pg.Execute("pb", 0), pg.Sync(),
+			pg.Bind("pb2", "b", nil, [][]byte{[]byte("2")}, nil), pg.Describe('P', "pb2"), pg.Execute("pb2", 0), pg.Close('P', "pb"), pg.Sync(), pg.Query("select 1"), pg.Terminate()})},
 		{Name: "copy-text-abort", Msgs: cat([][]byte{start, pg.Query("copyt in"), pg.CopyData([]byte("a\t1\n")), pg.Flush(), pg.CopyFail("stop"), pg.CopyData([]byte("late")), pg.Query("select 1"), pg.Terminate()})},
 		{Name: "oversized", Msgs: cat([][]byte{start, pg.Raw('Q', bytes.Repeat([]byte{'o'}, c04L+100)), pg.Query("select 1"), pg.Raw('P', bytes.Repeat([]byte{'o'}, 2*c04L+1)), pg.Sync(), pg.Terminate()})},
 		{Name: "ssl-refused", Msgs: cat([][]byte{pg.SSLRequest(), start, pg.Query("select 1"), pg.Terminate()})},
@@ -140,7 +144,7 @@ func (ch c04) Run(c *core.Ctx) {
 	envTLS := hs.Start(hs.Parse, wire.MessageBufferSize(c04L), wire.TLSConfig(hs.ServerTLS()))
 	envs := c04envs{plain: hs.Start(hs.Parse, wire.MessageBufferSize(c04L)), auth: hs.Start(hs.Parse, wire.MessageBufferSize(c04L), wire.SessionAuthStrategy(wire.ClearTextPassword(c04validator)))}
 	nb := ch.Batches(c.Tier)
-	ncanon, nmut := 11, 2500
+	ncanon, nmut := 12, 2500
 	if c.Tier == "thorough" {
 		ncanon, nmut = 40, 400000
 	}
